@@ -93,10 +93,23 @@ impl Members {
         // Because a newly inserted member would always have the same
         // timestamp this code doesn't run if we just inserted.
         if actor.ts().to_duration() > member.ts.to_duration() {
+            let old_addr = member.addr;
             member.addr = actor.addr();
             member.ts = actor.ts();
             member.cluster_id = actor.cluster_id();
             ret = MemberAddedResult::Updated;
+
+            // A renewed identity can come with a new address: RTT samples are
+            // keyed by address, so re-point the address index and recompute the
+            // ring from the samples of the new address only.
+            if old_addr != actor.addr() {
+                member.ring = None;
+                if self.by_addr.get(&old_addr) == Some(&actor_id) {
+                    self.by_addr.remove(&old_addr);
+                }
+                self.by_addr.insert(actor.addr(), actor_id);
+                self.recalculate_rings(actor.addr());
+            }
         }
 
         // If we just inserted, add the actor to the by_addr set and
